@@ -41,8 +41,15 @@ AI_ENVS = [
     {"CODEMODDER_AZURE_OPENAI_ENDPOINT": "https://e.invalid"},
     {"CODEMODDER_AZURE_LLAMA_API_KEY": "k"},
     {"CODEMODDER_AZURE_LLAMA_ENDPOINT": "https://e.invalid"},
+    # one of the pair set, the other present but empty (`VAR=$UNSET_SECRET` in CI): still only one of the two is given
+    {"CODEMODDER_AZURE_OPENAI_API_KEY": "k", "CODEMODDER_AZURE_OPENAI_ENDPOINT": ""},
+    {"CODEMODDER_AZURE_LLAMA_API_KEY": "", "CODEMODDER_AZURE_LLAMA_ENDPOINT": "https://e.invalid"},
 ]
+# configurations in which no client is asked for: nothing set, or a variable present but empty
+AI_OK_ENVS = [{}, {}, {"CODEMODDER_AZURE_OPENAI_API_KEY": ""}, {"CODEMODDER_AZURE_LLAMA_ENDPOINT": ""},
+              {"CODEMODDER_AZURE_OPENAI_API_KEY": "", "CODEMODDER_AZURE_OPENAI_ENDPOINT": ""}]
 SEMGREP_SARIF = {"version": "2.1.0", "runs": [{"tool": {"driver": {"name": "Semgrep OSS"}}, "results": []}]}
+CODEQL_SARIF = {"version": "2.1.0", "runs": [{"tool": {"driver": {"name": "CodeQL"}}, "results": []}]}
 
 
 def concretize(case, root: Path, rng_pick):
@@ -72,15 +79,25 @@ def concretize(case, root: Path, rng_pick):
             first_pos = False
         k += 1
     extra = []
+    v = case.get("variant", 0)
+    def sarif_file(name, doc):
+        (root / name).write_text(json.dumps(doc))
+        return str(root / name)
     if c["sarif"] == "missing":
-        extra += ["--sarif", str(root / "missing.sarif")]
+        # a named SARIF file does not exist - alone, after well-formed files of both tools, or first
+        lists = [[str(root / "missing.sarif")],
+                 [sarif_file("q1.sarif", CODEQL_SARIF), sarif_file("s1.sarif", SEMGREP_SARIF), str(root / "missing.sarif")],
+                 [str(root / "missing.sarif"), sarif_file("s1.sarif", SEMGREP_SARIF)]]
+        extra += ["--sarif", ",".join(lists[v % 3])]
     elif c["sarif"] == "duplicateTool":
-        for n in ("s1.sarif", "s2.sarif"):
-            (root / n).write_text(json.dumps(SEMGREP_SARIF))
-        extra += ["--sarif", f"{root/'s1.sarif'},{root/'s2.sarif'}"]
-    elif case.get("variant", 0) % 3 == 1:
-        (root / "s1.sarif").write_text(json.dumps(SEMGREP_SARIF))
-        extra += ["--sarif", str(root / "s1.sarif")]
+        # two files of one tool - adjacent, or with a file of the other tool in between / before
+        S, Q = SEMGREP_SARIF, CODEQL_SARIF
+        lists = [[("s1", S), ("s2", S)], [("q1", Q), ("s1", S), ("q2", Q)], [("s1", S), ("q1", Q), ("s2", S)], [("q1", Q), ("q2", Q)], [("q1", Q), ("s1", S), ("s2", S)]]
+        extra += ["--sarif", ",".join(sarif_file(n + ".sarif", d) for n, d in lists[v % 5])]
+    elif v % 3 == 1:
+        extra += ["--sarif", sarif_file("s1.sarif", SEMGREP_SARIF)]
+    elif v % 7 == 2:
+        extra += ["--sarif", sarif_file("q1.sarif", CODEQL_SARIF) + "," + sarif_file("s1.sarif", SEMGREP_SARIF)]
     if c["resultFileMissing"]:
         opt = ["--sonar-issues-json", "--sonar-hotspots-json", "--defectdojo-findings-json"][case.get("variant", 0) % 3]
         extra += [opt, str(root / "missing.json")]
@@ -101,6 +118,8 @@ def concretize(case, root: Path, rng_pick):
     env = {k2: None for e in AI_ENVS for k2 in e}
     if c["aiMisconfigured"]:
         env.update(AI_ENVS[case.get("variant", 0) % len(AI_ENVS)])
+    else:
+        env.update(AI_OK_ENVS[case.get("variant", 0) % len(AI_OK_ENVS)])
     return argv, extra, env, out_path
 
 
@@ -172,13 +191,13 @@ def cases(ctx):
                                            [False, True], ["none", "writable", "unwritable"]):
         lattice.append({"dirExists": d, "sarif": s, "resultFileMissing": r, "aiMisconfigured": a, "output": o})
     for i, c in enumerate(lattice):
-        out.append({"toks": ["positional"], "conds": c, "variant": i})
-        out.append({"toks": ["positional"], "conds": c, "variant": i + 1})
+        for dv in range(6):
+            out.append({"toks": ["positional"], "conds": c, "variant": i + dv + (ctx.seed % 5)})
     for i, c in enumerate(lattice):
         if i % 4 == ctx.seed % 4:
             out.append({"toks": ["positional", "unknownOpt"], "conds": c, "variant": i})
             out.append({"toks": ["positional", "help"], "conds": c, "variant": i})
-    ctx.exhaustive_parts.append(f"condition lattice: {len(lattice)} combinations x 2 concretisations")
+    ctx.exhaustive_parts.append(f"condition lattice: {len(lattice)} combinations x 6 concretisations")
     # (c) random longer command lines x random conditions
     for i in range(ctx.pick(60, 600)):
         L = ctx.rng.randint(3, 6)
